@@ -11,7 +11,11 @@
     bounds) after the last unbounded update, then multiplied by the baseline weights; default naive bounds are +-1 and >= 0; the
     turnout bounds themselves are quotients whose denominators stay positive (R3.bounds-feasible);
  R4 same draws for every level: the draw matrices and point predictions are written only by compute_bootstrap_errors, whose only
-    call site is behind the run-once guard; the per-level functions neither write them nor draw random numbers.
+    call site is behind the run-once guard; the per-level functions neither write them nor draw random numbers;
+ R7 call-monotone: every call / stop adjustment of a contest-level bound is a monotone map of that bound (a clamp), evaluated on
+    the 7 regions around {-0.005, 0, +0.005} for every call code and stop flag, so nested levels stay nested (F29);
+ R8 epsilon-guard: with fewer than two non-zero estimated contest effects (n = 0 and n = 1 are evaluated) the sampler of contest
+    effects returns before it takes a variance (ddof=1) / correlation, which would be NaN and end the run in LinAlgError (F28).
 Not decided: 0 <= low rank <= high rank <= 1 for all (alpha, B >= 2) and numeric ranges - arithmetic over unbounded domains
 (hand proof in DESIGN.md appendix A); here only that the code still is the formula that proof is about.
 """
@@ -151,6 +155,100 @@ def _centre(ctx, cls):
                     f"the interval is built around a different number than the one reported")
 
 
+def _call_monotone(ctx):
+    """R7.call-monotone: at the contest level the bounds of called / stop-listed contests are post-processed. The levels stay nested
+    only if every such adjustment is a MONOTONE map of the bound (a clamp max(x, c) / min(x, c)): `where(x < 0, 0.005, x)` is not -
+    it lifts -0.03 above +0.002 - so a wider level could end up inside a narrower one. Decided by evaluating the adjustment on
+    the 7 regions around {-0.005, 0, +0.005} for every call code and stop flag (the other bound held at each feasible region)."""
+    from .c07 import interval_adjustment_terms
+    from ..regions import RegionEval
+    try:
+        T = interval_adjustment_terms(ctx)
+    except AnalysisError as e:
+        # the straddle or the call vectors are gone: R2 / C07 report that; here it means the adjustment cannot be shown monotone
+        gi = ctx.fn(BM, "BootstrapElectionModel.get_aggregate_prediction_intervals")
+        for side in ("lower", "upper"):
+            ctx.ob("C06.R7.call-monotone", f"{gi.qualname}|{side} bound adjustments keep the order of levels", False, gi.where(),
+                   f"the call / stop adjustment of the {side} bound is not in the form that can be evaluated: {e}")
+        return
+    R, fn = T["R"], T["fn"]
+    regs = list(R.all_regions())
+    nstates = 0
+    bad = {}
+    for code, who in zip(T["codes"], ("called left", "called right", "not called")):
+        for stop in (False, True):
+            for side, term, own, other in (("lower", T["LO"], T["L0"], T["U0"]), ("upper", T["UP"], T["U0"], T["L0"])):
+                for ro in regs:
+                    prev = None
+                    for r in regs:  # ascending
+                        env = {own: ("r", r), other: ("r", ro), T["CALLED"]: ("i", code), T["STOP"]: ("b", stop), T["TOPC"]: ("b", True)}
+                        out = RegionEval(R, env, T["fold"]).ev(term)
+                        out = out[1] if out[0] == "r" else R.of_const(out[1])
+                        nstates += 1
+                        if prev is not None and out < prev[1]:
+                            bad.setdefault((side, who, stop), f"{side} bound in {R.name(prev[0])} becomes {R.name(prev[1])} but a larger one in "
+                                                               f"{R.name(r)} becomes {R.name(out)}")
+                        prev = (r, out)
+    ctx.count("C06.R7.states", nstates)
+    for side in ("lower", "upper"):
+        items = {k: v for k, v in bad.items() if k[0] == side}
+        ok = not items
+        detail = (f"every call / stop adjustment of the {side} bound is a monotone map (clamp), so nested levels stay nested" if ok else
+                  "; ".join(f"{who}{', stop-listed' if stop else ''}: {v}" for (_, who, stop), v in sorted(items.items(), key=str))
+                  + f" - the adjustment is not monotone, the {side} bounds of two levels can swap order")
+        ctx.ob("C06.R7.call-monotone", f"{fn.qualname}|{side} bound adjustments keep the order of levels", ok, fn.where(), detail)
+
+
+def _epsilon_guard(ctx, cls):
+    """R8.epsilon-guard: _sample_test_epsilon estimates the spread and correlation of the contest effects from the NON-ZERO estimated
+    effects (variance with ddof=1, corrcoef). With fewer than two of them these are NaN, the covariance handed to
+    multivariate_normal is NaN and the run dies in LinAlgError - no interval at all. The early 'no contest-level variance' return
+    must therefore take every count below 2 (0 as well as 1): the guard is evaluated at n = 0 and n = 1."""
+    import operator
+    f = ctx.fn(BM, "BootstrapElectionModel._sample_test_epsilon")
+    s = ctx.builder().summarize(f, self_cls=cls)
+    OPS = {"<": operator.lt, "<=": operator.le, ">": operator.gt, ">=": operator.ge, "==": operator.eq, "!=": operator.ne}
+
+    def is_count(t):  # number of non-zero estimated effects: nonzero(eps)[0].shape[0] / len(nonzero(eps)[0]) / count_nonzero(eps)
+        txt = ir.show(t, maxdepth=10)
+        return ("nonzero" in txt and "epsilon" in txt) and (
+            (t[0] == "sub" and t[1][0] == "attr" and t[1][2] == "shape") or (t[0] == "attr" and t[2] == "size")
+            or (t[0] == "call" and (t[1] == ("global", "len") or ir.show(t[1]).endswith("count_nonzero"))))
+
+    def ev(c, n):
+        if c[0] == "bool":
+            vals = [ev(x, n) for x in c[2]]
+            if c[1] == "and":
+                return False if False in vals else (None if None in vals else True)
+            return True if True in vals else (None if None in vals else False)
+        if c[0] == "un" and c[1] == "not":
+            v = ev(c[2], n)
+            return None if v is None else not v
+        if c[0] == "cmp" and c[1] in OPS:
+            if is_count(c[2]) and c[3][0] == "const" and isinstance(c[3][1], (int, float)):
+                return OPS[c[1]](n, c[3][1])
+            if is_count(c[3]) and c[2][0] == "const" and isinstance(c[2][1], (int, float)):
+                return OPS[c[1]](c[2][1], n)
+        return None
+
+    def draws(t):
+        return any(x[0] == "call" and x[1][0] == "attr" and x[1][2] in ("multivariate_normal", "normal") for x in ir.walk(t))
+
+    sampling = [r for r in s.returns if draws(r[1])]
+    early = [r for r in s.returns if not draws(r[1])]
+    ctx.sites("C06.R8.epsilon-guard", len(sampling), 1, "sampling return of _sample_test_epsilon")
+    covered = {}
+    for n in (0, 1):
+        covered[n] = any(pc and all(ev(c, n) is pol for c, pol in pc) for pc, _, _ in early)
+    ok = all(covered.values())
+    missing = [n for n, v in covered.items() if not v]
+    ctx.ob("C06.R8.epsilon-guard", f"{f.qualname}|fewer than two estimable contest effects take the early return", ok, f.where(),
+           "with 0 or 1 non-zero estimated contest effects the function returns zeros before any variance / correlation is taken" if ok
+           else f"with {' and '.join(map(str, missing))} non-zero estimated contest effect(s) the function goes on to the variance (ddof=1) and "
+                f"correlation of an empty / single selection: NaN covariance, multivariate_normal raises LinAlgError and the run produces no interval "
+                f"(every contest with at most one reporting unit, or a centred residual mean of exactly 0)")
+
+
 def check(ctx):
     repo = ctx.repo
     ctx.explanation = (
@@ -206,6 +304,8 @@ def check(ctx):
 
     _centre(ctx, cls)
     _bound_denominators(ctx, cls)
+    _call_monotone(ctx)
+    _epsilon_guard(ctx, cls)
 
     # ---- quantile formulas as written in _get_quantiles --------------------------------------------------
     qf = ctx.fn(BM, "BootstrapElectionModel._get_quantiles")
